@@ -149,6 +149,45 @@ def charac_spec(env, am, ch, ti):
     return num / den if den > 0 else 0.0
 
 
+def transfer_body(units, T=3):
+    """Transfers between populations are data parameters per (source, destination) pair: value = entered value x y-factor x
+    meta y-factor, clipped to [0, inf) (durations to [1e-6, inf)), in the units entered, one link per ordinary compartment"""
+
+    def body(env):
+        am, ap, au, apar, afp = mr.modules()
+        from checks.modelstep import project as mproject
+
+        P = mproject("M1", T, 0.25, pops=2, transfers=1, transfer_units=units)
+        ps = copy.deepcopy(P.parsets[0])
+        spec = {}
+        with mr.session(env):
+            for tname, tr in ps.transfers.items():
+                for src, par in tr.items():
+                    par.meta_y_factor = env.real("myf|%s|%s" % (tname, src), 0.1, 10.0)
+                    for dst, ts in par.ts.items():
+                        lo, hi = mr._rng(units)
+                        ts.assumption = env.real("transfer|%s|%s>%s" % (tname, src, dst), 0.0 if units != "duration" else -1.0, hi)
+                        par.y_factor[dst] = env.real("yf|%s|%s>%s" % (tname, src, dst), 0.1, 10.0)
+                        spec["%s_%s_to_%s" % (tname, src, dst)] = (src, dst, env.smax(ts.assumption * par.y_factor[dst] * par.meta_y_factor, 1e-6 if units == "duration" else 0.0))
+            m = am.Model(P.settings, P.framework, ps)
+            found = set()
+            for pop in m.pops:
+                for par in pop.pars:
+                    if par.name in spec:
+                        src, dst, v = spec[par.name]
+                        found.add(par.name)
+                        env.claim("transfer_parameter_lives_in_source_population|%s" % par.name, env.true(pop.name == src), key="transfer_structure")
+                        env.claim("transfer_units|%s" % par.name, env.true(par.units == units), key="transfer_structure")
+                        for ti in range(len(m.t)):
+                            env.claim("transfer_value|%s|t%d" % (par.name, ti), env.eq(par.vals[ti], v), key="transfer_value")
+                        ordinary = [c.name for c in pop.comps if not isinstance(c, (am.SourceCompartment, am.SinkCompartment, am.JunctionCompartment))]
+                        linked = sorted((l.source.name, l.dest.name, l.dest.pop.name) for l in par.links)
+                        env.claim("transfer_links_like_to_like|%s" % par.name, env.true(linked == sorted((c, c, dst) for c in ordinary)), key="transfer_structure", meta=dict(links=linked))
+            env.claim("every_entered_transfer_has_a_parameter", env.true(found == set(spec)), key="transfer_structure")
+
+    return body
+
+
 def body_factory(name, pattern, scenario=None, y_factors=True, T=3):
     def body(env):
         am, ap, au, apar, afp = mr.modules()
@@ -382,10 +421,13 @@ def specs(tier):
     return out
 
 
+TRANSFER_UNITS = ("probability", "rate", "number", "duration")
+
+
 def groups(tier):
     gs = []
-    for nm, kw in specs(tier):
-        body = body_factory(**kw)
+    for nm, kw in specs(tier) + [("transfer[%s]" % u, dict(transfer_units=u)) for u in TRANSFER_UNITS]:
+        body = transfer_body(kw["transfer_units"]) if "transfer_units" in kw else body_factory(**kw)
 
         def g(tier_, seed, _b=body, _nm=nm, _kw=kw):
             return run_body(_b, _nm, tier_, seed, functions=_funcs(), bounds=dict(_kw, dt=0.25), stubs=["numpy/scipy/sciris/math in atomica.model, parameters, utils, scenarios, function_parser -> vsym shims (np.interp piecewise-linear, interp1d(previous) step, np.clip If-terms)", "stocks cut to fresh non-negative variables after each Model.update_comps"], timeout_ms=120000)
@@ -396,6 +438,9 @@ def groups(tier):
 
 
 def replay(rec):
+    for u in TRANSFER_UNITS:
+        if rec["replay"]["group"] == "transfer[%s]" % u:
+            return replay_body(transfer_body(u), rec["model"], rec["replay"]["claim"])
     for nm, kw in specs("thorough") + specs("quick"):
         if nm == rec["replay"]["group"]:
             return replay_body(body_factory(**kw), rec["model"], rec["replay"]["claim"])
